@@ -364,6 +364,21 @@ namespace
     const char* names[K__count] = {"insert", "erase", "clear", "copy_construct", "move_construct", "copy_assign",
                                    "move_assign", "swap", "splice", "rebuild"};
 
+    // containers whose move assignment / swap in libstdc++ also ask the allocators for equality
+    // (deque::_M_replace_map, basic_string::operator=(&&)): for them recorded finding F19 cannot be
+    // excluded per operation, the type-erased flavour stays on one allocator object
+    template <class C>
+    struct compares_on_move : std::false_type
+    {
+    };
+    template <class T, class A>
+    struct compares_on_move<std::deque<T, A>> : std::true_type
+    {
+    };
+    template <class T, class Tr, class A>
+    struct compares_on_move<std::basic_string<T, Tr, A>> : std::true_type
+    {
+    };
     template <class C>
     struct is_list : std::false_type
     {
@@ -386,12 +401,17 @@ namespace
         CLeaf A(41), B(42);
         auto  bind = [&](unsigned which) -> CLeaf&
         {
-            // recorded finding F19: type-erased std_allocators on different allocator objects
-            // compare equal; the type-erased flavour is only generated with a single allocator
-            if (any_flavour && !allow_known)
+            // (recorded finding F19 - type-erased std_allocators on different allocator objects compare
+            // equal - is excluded operation by operation below, see f19_guard)
+            if (any_flavour && !allow_known && compares_on_move<C>::value)
                 return A;
             return which % 2 ? B : A;
         };
+        // F19 makes exactly those operations misbehave in which the standard library asks the
+        // allocators whether they are equal: copy assignment and allocator-extended move construction
+        // between containers on different allocator objects. They are skipped for the type-erased
+        // flavour (counted); move assignment, swap and allocator-extended copies do not compare.
+        const bool f19_guard = any_flavour && !allow_known;
         constexpr size_t NS = 4;
         std::unique_ptr<C> c[NS];
         std::unique_ptr<R> r[NS];
@@ -430,7 +450,7 @@ namespace
             // equality must say exactly that
             bool eqA = c[i]->get_allocator() == Alloc(A), eqB = c[i]->get_allocator() == Alloc(B);
             if (any_flavour && !allow_known)
-                return; // only one allocator object in play
+                return; // the equality answers of the type-erased flavour are recorded finding F19
             if (eqA != (observed == A.owner()) || eqB != (observed == B.owner()))
                 f("equality", std::string("std_allocator equality disagrees with the allocator object the container uses ")
                                   + when);
@@ -485,6 +505,12 @@ namespace
                     ++n_cross;
                 break;
             case K_move_construct:
+                if (op.c % 2 && f19_guard && bind(op.c / 2).owner() != owner[i])
+                {
+                    ++ci.counters["excluded_by_known_finding"];
+                    ++ci.noops;
+                    break;
+                }
                 if (op.c % 2)
                 {
                     CLeaf& l = bind(op.c / 2);
@@ -501,6 +527,12 @@ namespace
                 r[i]->clear();
                 break;
             case K_copy_assign:
+                if (f19_guard && owner[i] != owner[j])
+                {
+                    ++ci.counters["excluded_by_known_finding"];
+                    ++ci.noops;
+                    break;
+                }
                 if (owner[i] != owner[j] && !c[i]->empty() && !c[j]->empty())
                     ++n_cross;
                 *c[j] = *c[i];
